@@ -33,6 +33,7 @@ const (
 	opLock
 	opRLock
 	opSleep
+	opWaitStep
 	// immediate (non-scheduling) operations
 	opGo
 	opUnlock
@@ -53,7 +54,7 @@ const (
 	opExitDead
 )
 
-var opNames = [...]string{"start", "yield", "send", "recv", "close", "select", "wg.Add", "wg.Wait", "lock", "rlock", "sleep",
+var opNames = [...]string{"start", "yield", "send", "recv", "close", "select", "wg.Add", "wg.Wait", "lock", "rlock", "sleep", "waitstep",
 	"go", "unlock", "runlock", "timer.new", "timer.stop", "timer.reset", "ctx.new", "ctx.cancel", "ctx.err", "fair", "mark", "perm", "len", "exit", "panic", "exitdead"}
 
 func (k opKind) String() string { return opNames[k] }
@@ -124,6 +125,7 @@ type G struct {
 	prio     float64
 	skipped  int
 	isMain   bool
+	wakeStep int64
 }
 
 type selWait struct {
@@ -286,6 +288,8 @@ type sched struct {
 	marks        map[string]int64
 	killing      bool
 	candBuf      []*G
+	stepWaiters  []*G
+	forced       []*G
 }
 
 // state shared with running goroutines (plain words, accessed only by the one
@@ -472,6 +476,9 @@ func (s *sched) loop() {
 			s.res.Spinning = true
 			return
 		}
+		if len(s.stepWaiters) > 0 {
+			s.releaseStepWaiters()
+		}
 		g, fire := s.choose()
 		if fire {
 			s.fireNextTimer()
@@ -629,6 +636,29 @@ func (s *sched) finish() {
 	s.live = nil
 }
 
+// releaseStepWaiters makes goroutines parked in WaitStep runnable once the step
+// counter has reached their target; the first one is forced to run next.
+//
+//go:norace
+func (s *sched) releaseStepWaiters() {
+	for i := 0; i < len(s.stepWaiters); i++ {
+		g := s.stepWaiters[i]
+		if g.status != gParked {
+			copy(s.stepWaiters[i:], s.stepWaiters[i+1:])
+			s.stepWaiters = s.stepWaiters[:len(s.stepWaiters)-1]
+			i--
+			continue
+		}
+		if g.wakeStep <= s.step {
+			copy(s.stepWaiters[i:], s.stepWaiters[i+1:])
+			s.stepWaiters = s.stepWaiters[:len(s.stepWaiters)-1]
+			i--
+			s.wakeG(g, reply{})
+			s.forced = append(s.forced, g)
+		}
+	}
+}
+
 // choose returns the next goroutine to run, or fire=true to fire the next timer.
 //
 //go:norace
@@ -640,6 +670,13 @@ func (s *sched) choose() (g *G, fire bool) {
 		}
 	}
 	s.candBuf = cands[:0]
+	for len(s.forced) > 0 {
+		g := s.forced[0]
+		s.forced = s.forced[1:]
+		if g.status == gRunnable {
+			return g, false
+		}
+	}
 	if len(cands) == 0 {
 		if len(s.timers) > 0 {
 			s.idleFires++
